@@ -358,6 +358,67 @@ func leafAsRootUnit() harness.Unit {
 	}}
 }
 
+// boundaryTimeUnit: verification times at and around the first and last instant of a validity period,
+// with nanosecond, millisecond and second offsets. A certificate is valid from NotBefore to NotAfter
+// inclusive; the chain leaf <- A <- R1 is valid when all three are. Each position of the chain in turn
+// is the one whose period ends (or begins) at the boundary: the others are valid throughout.
+func boundaryTimeUnit() harness.Unit {
+	return harness.Unit{Name: "validity-boundaries", Run: func(c *harness.Ctx) {
+		u, err := buildUniverse()
+		if err != nil {
+			c.Violate("setup", err.Error(), nil, nil)
+			return
+		}
+		wide := func(d *desc) { d.nb, d.na = 2000, 2050 }
+		mk := func(d desc) *cert {
+			x, err := build(d)
+			if err != nil {
+				c.Violate("setup", err.Error(), nil, nil)
+				return nil
+			}
+			return x
+		}
+		root, inter, leaf := u.byID["R1"], u.byID["A"], u.byID["L-byA"]
+		rootW, interW, leafW := mk(root.d.with(wide).with(func(d *desc) { d.id = "R1-wide" })), mk(inter.d.with(wide).with(func(d *desc) { d.id = "A-wide" })), mk(leaf.d.with(wide).with(func(d *desc) { d.id = "L-wide" }))
+		if rootW == nil || interW == nil || leafW == nil {
+			return
+		}
+		chains := []struct {
+			what    string
+			l, i, r *cert
+			narrow  *cert
+		}{{"the leaf", leaf, interW, rootW, leaf}, {"the intermediate", leafW, inter, rootW, inter}, {"the root", leafW, interW, root, root}, {"all three", leaf, inter, root, leaf}}
+		offs := []time.Duration{-time.Second, -999 * time.Millisecond, -time.Millisecond, -time.Nanosecond, 0, time.Nanosecond, time.Millisecond, 500 * time.Millisecond, 999 * time.Millisecond, time.Second}
+		for _, ch := range chains {
+			for _, end := range []bool{false, true} {
+				edge := ch.narrow.x.NotBefore
+				if end {
+					edge = ch.narrow.x.NotAfter
+				}
+				for _, off := range offs {
+					t := edge.Add(off)
+					want := !t.Before(ch.narrow.x.NotBefore) && !t.After(ch.narrow.x.NotAfter)
+					opts := gx509.VerifyOptions{Roots: pool([]*cert{ch.r}), Intermediates: pool([]*cert{ch.i}), CurrentTime: t, KeyUsages: []gx509.ExtKeyUsage{gx509.ExtKeyUsageAny}}
+					var chainsOut [][]*gx509.Certificate
+					var verr error
+					tag := fmt.Sprintf("chain L <- A <- R1 where %s has the narrow validity period; verification time = %s %v", ch.what, map[bool]string{false: "NotBefore", true: "NotAfter"}[end], off)
+					c.Add("executions", 1)
+					c.Add("transitions", 1)
+					c.DistinctS("states", tag)
+					if c.Guard("verify-panic:validity-boundary", tag, nil, func() { chainsOut, verr = ch.l.x.Verify(opts) }) {
+						continue
+					}
+					got := verr == nil && len(chainsOut) > 0
+					if got != want {
+						c.Violate(fmt.Sprintf("validity-boundary:%s:%v:%v", ch.what, end, off), fmt.Sprintf("[%s] Verify accepts=%v (err %v), the period [%v, %v] says %v", tag, got, verr, ch.narrow.x.NotBefore, ch.narrow.x.NotAfter, want), nil, nil)
+					}
+				}
+			}
+		}
+		c.Sample("4 chains (narrow period on the leaf / intermediate / root / all) x first and last instant x 10 offsets from -1 s to +1 s")
+	}}
+}
+
 // deepUnit: up to 4 intermediates over the structurally interesting variants (thorough).
 func deepUnit(k, part, parts int, allOrders bool) harness.Unit {
 	return harness.Unit{Name: fmt.Sprintf("structure-deep/|I|=%d/part%d", k, part), Run: func(c *harness.Ctx) {
@@ -437,7 +498,7 @@ var Prop = &harness.Prop{
 		for i := 0; i < 5; i++ {
 			u = append(u, leafQueryUnit(i))
 		}
-		u = append(u, constraintUnit(), leafAsRootUnit())
+		u = append(u, constraintUnit(), leafAsRootUnit(), boundaryTimeUnit())
 		return u
 	},
 }
